@@ -5,6 +5,8 @@
  *                      (iter_last / iter_prev), ask len and get(0 … len-1).  Prints
  *                        O f=[items] fe=<term|exc|fuel> b=[items] be=<…> len=<n|-> get=[values|!]     or  O construct=<Exception>
  *                      (when a walk is cut by the cap only its first 16 items are printed)
+ *   V <expr>           as W, the top-level view constructed with the stack macros range(…) slice(…) reverse(…) zip(…)
+ *                      enumerate(…) filter(…) map(…) of Cello.h
  *   S <n> <a> <b> <c>  slice_stack on an Array of n items: prints  O range=<start>,<stop>,<step> len=<Slice_Len>
  *   expr ::= (array v*) | (list v*) | (tuple id*) | (table s*)  s = `.` | key   — slot array written white-box
  *          | (tree S)  S = `.` | (S k S)  — nodes linked white-box | (rtree k*)  — built with set()
@@ -412,16 +414,73 @@ static void deviation(Node* n, int aspect, size_t lineno, const char* what) {
   X("sig=%s line=%zu what=%s", sig, lineno, what);
 }
 
+static void walk_obj(Node* n, var obj, size_t lineno);
+
 static void op_walk(Node* n, size_t lineno) {
-  static char what[1024];
   nclos_p = nclos_f = 0;
   var exc; volatile var obj = NULL;
   V_TRY(exc, obj = build(n));
-  if (exc) {
-    O("construct=%s", v_exc_name(exc));
-    if (def_has_len(n) || n->kind != K_SLICE) {}   /* construction failures are compared with the model only */
-    return;
+  if (exc) { O("construct=%s", v_exc_name(exc)); return; }   /* construction failures are compared with the model only */
+  walk_obj(n, obj, lineno);
+}
+
+/* `V <expr>`: as `W`, but the TOP-LEVEL view is constructed with the stack macros of Cello.h (range / slice / reverse /
+   zip / enumerate / filter / map), which go through range_stack, slice_stack, zip_stack, enumerate_stack and `$(T, …)`
+   instead of the New instances; the object lives in this frame while it is walked. */
+static var A_(Node* n, size_t i) { return n->has[i] ? (var)new_raw(Int, $I(n->v[i])) : _; }
+static void op_walk_macro_inner(Node* n, size_t lineno) {
+  var k[8] = {0};
+  for (size_t i = 0; i < n->nk; i++) k[i] = build(n->kid[i]);
+  switch (n->kind) {
+    case K_RANGE:
+      switch (n->nv) {
+        case 0: walk_obj(n, range(), lineno); return;
+        case 1: walk_obj(n, range(A_(n, 0)), lineno); return;
+        case 2: walk_obj(n, range(A_(n, 0), A_(n, 1)), lineno); return;
+        case 3: walk_obj(n, range(A_(n, 0), A_(n, 1), A_(n, 2)), lineno); return;
+        default: walk_obj(n, range(A_(n, 0), A_(n, 1), A_(n, 2), A_(n, 3)), lineno); return;
+      }
+    case K_SLICE:
+      if (n->nv == 3 && !n->has[0] && !n->has[1] && n->has[2] && n->v[2] == -1) { walk_obj(n, reverse(k[0]), lineno); return; }
+      switch (n->nv) {
+        case 0: walk_obj(n, slice(k[0]), lineno); return;
+        case 1: walk_obj(n, slice(k[0], A_(n, 0)), lineno); return;
+        case 2: walk_obj(n, slice(k[0], A_(n, 0), A_(n, 1)), lineno); return;
+        case 3: walk_obj(n, slice(k[0], A_(n, 0), A_(n, 1), A_(n, 2)), lineno); return;
+        default: walk_obj(n, slice(k[0], A_(n, 0), A_(n, 1), A_(n, 2), A_(n, 3)), lineno); return;
+      }
+    case K_ZIP:
+      switch (n->nk) {
+        case 1: walk_obj(n, zip(k[0]), lineno); return;
+        case 2: walk_obj(n, zip(k[0], k[1]), lineno); return;
+        case 3: walk_obj(n, zip(k[0], k[1], k[2]), lineno); return;
+        case 4: walk_obj(n, zip(k[0], k[1], k[2], k[3]), lineno); return;
+        default: walk_obj(n, build(n), lineno); return;
+      }
+    case K_ENUM: walk_obj(n, enumerate(k[0]), lineno); return;
+    case K_FILTER: {
+      clos_a[nclos_p] = n->p1; clos_b[nclos_p] = n->p2;
+      var (*f)(var) = preds[nclos_p++];
+      walk_obj(n, filter(k[0], $(Function, f)), lineno); return;
+    }
+    case K_MAP: {
+      fclos_a[nclos_f] = n->p1; fclos_b[nclos_f] = n->p2;
+      var (*f)(var) = funs[nclos_f++];
+      walk_obj(n, map(k[0], $(Function, f)), lineno); return;
+    }
+    default: walk_obj(n, build(n), lineno); return;
   }
+}
+static void op_walk_macro(Node* n, size_t lineno) {
+  nclos_p = nclos_f = 0;
+  var exc;
+  V_TRY(exc, op_walk_macro_inner(n, lineno));
+  if (exc) O("construct=%s", v_exc_name(exc));
+}
+
+static void walk_obj(Node* n, var obj, size_t lineno) {
+  static char what[1024];
+  var exc;
   RL ref = ref_of(n);
   ll = 0;
   /* forward */
@@ -492,6 +551,7 @@ static void worker(char** lines, size_t n, size_t from) {
     sh->cur = li; alarm(20);
     st_ops++;
     if (l[0] == 'W' && l[1] == ' ') { Node* e = parse_line(l + 2); if (!e) O("bad-op"); else op_walk(e, li + 1); }
+    else if (l[0] == 'V' && l[1] == ' ') { Node* e = parse_line(l + 2); if (!e) O("bad-op"); else op_walk_macro(e, li + 1); }
     else if (l[0] == 'S' && l[1] == ' ') op_slice_arg(l + 2, li + 1);
     else O("bad-op");
     sh->ops += 1; sh->items = st_items; sh->dev = st_dev; sh->kf = st_kf;
@@ -522,7 +582,7 @@ int main(int argc, char** argv) {
     if (k == (size_t)-1) { fprintf(stderr, "worker died before its first op\n"); return 3; }
     crashes++;
     O("crash");
-    Node* e = (lines[k][0] == 'W') ? parse_line(lines[k] + 2) : NULL;
+    Node* e = (lines[k][0] == 'W' || lines[k][0] == 'V') ? parse_line(lines[k] + 2) : NULL;
     const char* sig = e ? sig_for(e, A_CRASH) : "c11-crash";
     dev++; if (!strncmp(sig, "kf-", 3)) kf++;
     X("sig=%s line=%zu what=the library left the iteration protocol: worker %s %d", sig, k + 1,
